@@ -745,15 +745,39 @@ class Interp:
         if need_other:
             labels.append(("otherwise", t["otherwise"]))
         ck = d.key()
+        explicit = frozenset(l for l, _ in labels if l != "otherwise")
+
+        def note(pth, l):
+            # "otherwise" only says which values the discriminant does NOT have: a later switch with other explicit targets
+            # (`match x { A => .., _ => .. }` followed by `if let B = x`) still has to be explored for each of them
+            if l == "otherwise":
+                prev = pth.assumed.get(ck)
+                excl = (prev[1] if isinstance(prev, tuple) and prev and prev[0] == "not" else frozenset()) | explicit
+                pth.assumed[ck] = ("not", excl)
+            else:
+                pth.assumed[ck] = l
         if ck in path.assumed:
             lab = path.assumed[ck]
-            for l, b in labels:
-                if l == lab:
-                    frame.bb = b
+            if isinstance(lab, tuple) and lab and lab[0] == "not":
+                labels = [(l, b) for l, b in labels if l not in lab[1]]
+                if not labels:
+                    path.status, path.note = "unreachable", "no value of the discriminant left"
+                    return []
+                if len(labels) == 1:
+                    note(path, labels[0][0])
+                    if labels[0][0] != "otherwise":
+                        path.decisions.append(("switch", d, labels[0][0], t["span"]))
+                    frame.bb = labels[0][1]
                     return None
-            # previously assumed a label not among these targets -> otherwise
-            frame.bb = t["otherwise"]
-            return None
+                # several values are still possible: fall through to the fork below
+            else:
+                for l, b in labels:
+                    if l == lab:
+                        frame.bb = b
+                        return None
+                # previously assumed a label not among these targets -> otherwise
+                frame.bb = t["otherwise"]
+                return None
         chosen = self.policy.on_opaque_switch(d, [l for l, _ in labels], self, path)
         alts = [(l, b) for l, b in labels if l in chosen]
         if not alts:
@@ -762,13 +786,13 @@ class Interp:
         forks = []
         for l, b in alts[1:]:
             q = path.copy()
-            q.assumed[ck] = l
+            note(q, l)
             q.decisions.append(("switch", d, l, t["span"]))
             q.frames[-1].bb = b
             self._refine(q, d, l)
             forks.append(q)
         l, b = alts[0]
-        path.assumed[ck] = l
+        note(path, l)
         path.decisions.append(("switch", d, l, t["span"]))
         frame.bb = b
         self._refine(path, d, l)
